@@ -1,6 +1,7 @@
 package checks
 
 import (
+	"context"
 	"encoding/json"
 	"fmt"
 	"net/url"
@@ -40,6 +41,49 @@ func (o gcsOut) String() string {
 		s += fmt.Sprintf(" body=%q", o.Body)
 	}
 	return s + o.Bad + o.Panic
+}
+
+//go:norace
+func pt07(tag string) {
+	if t := sched.Cur(); t != nil {
+		t.Point(tag)
+	}
+}
+
+// gcsExecCtx is gcsExec for compose / copy requests issued with a cancellable client context.
+func gcsExecCtx(ctx context.Context, d *gcs.Driver, o GOp) gcsOut {
+	var r gcs.HTTPResp
+	switch o.Kind {
+	case "Compose":
+		var srcs []gcs.ComposeSrc
+		for _, s := range o.Srcs {
+			srcs = append(srcs, gcs.ComposeSrc{Name: s.Name})
+		}
+		r = d.DoCtx(ctx, gcs.ReqCompose(o.Bucket, o.Name, srcs, &o.Meta, o.Conds))
+	case "Copy":
+		r = d.DoCtx(ctx, gcs.ReqCopy(o.Bucket, o.Name, o.DstBucket, o.DstName))
+	default:
+		panic("gcsExecCtx: " + o.Kind)
+	}
+	out := gcsOut{Status: r.Status, Panic: r.Panic}
+	if r.Panic != "" || r.Status != 200 {
+		return out
+	}
+	if o.Kind == "Copy" {
+		var rr struct {
+			Resource json.RawMessage `json:"resource"`
+		}
+		if err := json.Unmarshal(r.Body, &rr); err == nil {
+			if v, err := gcs.ParseObject(rr.Resource); err == nil {
+				out.View = v
+			}
+		}
+		return out
+	}
+	if v, err := gcs.ParseObject(r.Body); err == nil {
+		out.View = v
+	}
+	return out
 }
 
 // gcsExec performs one operation (conditions are concrete numbers) and decodes what came back.
@@ -284,6 +328,13 @@ func c07Op(name string, g, mg int64) GOp {
 		return GOp{Kind: "Patch", Bucket: "b", Name: "x", PatchBody: []byte(`{"metadata":{"b":"2"},"contentType":"text/patched"}`), Conds: map[string]string{"ifMetagenerationMatch": ms}}
 	case "P":
 		return GOp{Kind: "Patch", Bucket: "b", Name: "x", PatchBody: []byte(`{"metadata":{"c":"3"}}`)}
+	case "Pfull", "Pfull2":
+		// compare-and-swap by a client that sends the whole resource back (version numbers included)
+		who := "A"
+		if name == "Pfull2" {
+			who = "B"
+		}
+		return GOp{Kind: "Patch", Bucket: "b", Name: "x", PatchBody: []byte(fmt.Sprintf(`{"metadata":{"owner":%q},"metageneration":"%d","generation":"%d"}`, who, mg, g)), Conds: map[string]string{"ifMetagenerationMatch": ms}}
 	case "Dg":
 		return GOp{Kind: "Delete", Bucket: "b", Name: "x", Conds: map[string]string{"ifGenerationMatch": gs}}
 	case "D":
@@ -356,14 +407,39 @@ func c07Build(c *fw.Ctx, p c07Param) *schedInst {
 		hist = append(hist, porcupine.Operation{ClientId: client, Input: o, Output: out, Call: call, Return: clock})
 	}
 	var threads []func()
+	cctx, cancel := context.WithCancel(context.Background())
+	doCtx := func(client int, o GOp) {
+		// a request whose client goes away at some point: its response is not part of the history
+		// (the client never sees it), but its effects are
+		clock++
+		call := clock
+		cd := *d
+		out := gcsExecCtx(cctx, &cd, o)
+		clock++
+		if out.Panic != "" {
+			hist = append(hist, porcupine.Operation{ClientId: client, Input: o, Output: out, Call: call, Return: clock})
+		} else if out.Status == 200 || out.Status == 204 {
+			hist = append(hist, porcupine.Operation{ClientId: client, Input: o, Output: out, Call: call, Return: clock})
+		}
+	}
 	for ti, names := range p.Threads {
 		ti, names := ti, names
 		threads = append(threads, func() {
 			for _, nme := range names {
+				if nme == "CancelCtx" {
+					pt07("cancel")
+					cancel()
+					continue
+				}
+				if strings.HasSuffix(nme, "@ctx") {
+					doCtx(ti, c07Op(strings.TrimSuffix(nme, "@ctx"), g, mg))
+					continue
+				}
 				do(ti, c07Op(nme, g, mg))
 			}
 		})
 	}
+	_ = cancel
 	inst := &schedInst{Threads: threads}
 	inst.Verdict = func(x *sched.Exec) (string, string, string) {
 		vos.Hook = nil
@@ -462,6 +538,12 @@ func runC07(c *fw.Ctx) {
 			c07Param{Store: store, Present: true, Threads: [][]string{{"Ug"}, {"Pm"}, {"R"}}},
 			c07Param{Store: store, Present: true, Threads: [][]string{{"Ug", "R"}, {"Pm", "M"}}},
 			c07Param{Store: store, Present: true, Threads: [][]string{{"D", "U0"}, {"Ug", "M"}}},
+			c07Param{Store: store, Present: true, Threads: [][]string{{"Pfull"}, {"Pfull2"}}},
+			c07Param{Store: store, Present: true, Threads: [][]string{{"Pfull"}, {"Pm"}, {"M"}}},
+			// a compose / copy whose client goes away while it waits for (or holds) the locks
+			c07Param{Store: store, Present: true, Threads: [][]string{{"Ug"}, {"Cfrom@ctx"}, {"CancelCtx"}}},
+			c07Param{Store: store, Present: true, Threads: [][]string{{"Pm"}, {"CPfrom@ctx"}, {"CancelCtx"}}},
+			c07Param{Store: store, Present: true, Threads: [][]string{{"Dg"}, {"Cg@ctx"}, {"CancelCtx", "M"}}},
 		)
 	}
 	for i, p := range scen {
@@ -477,7 +559,7 @@ func runC07(c *fw.Ctx) {
 			return
 		}
 		bound := 2
-		if len(p.Threads) == 3 && !c.Thorough() {
+		if len(p.Threads) == 3 && !c.Thorough() && p.Threads[2][0] != "CancelCtx" {
 			bound = 1
 		}
 		if c.Thorough() {
